@@ -108,6 +108,8 @@ class G(object):
     def add_idp(self, i, **kw):
         spec = {"kind": "idp", "name": "idp%d" % i, "key": i}
         spec.update(kw)
+        if self.rl.chance(0.2):
+            spec["str_bools"] = True
         self.nodes.append(spec)
         return spec
 
@@ -122,6 +124,8 @@ class G(object):
                     spec[k_] = None
         if self.rl.chance(0.2):
             spec["plain_config"] = True     # SP section inside a plain all-in-one Config object
+        if self.rl.chance(0.25):
+            spec["str_bools"] = True        # "true" / "false" strings instead of booleans in the service section
         self.nodes.append(spec)
         return spec
 
@@ -367,7 +371,8 @@ def gen_c02(seed, tier):
              for enc in (False, True)]
     if tier == "quick":
         # every option setting and every signing combination still appear; plain/encrypted alternate
-        cells = [c for j, c in enumerate(cells) if (j + seed) % 2 == 0 or c[3] is False and r.chance(0.2)]
+        # (seed // 2: independent of the clean / faulty class, which is the parity of the seed)
+        cells = [c for j, c in enumerate(cells) if (j + seed // 2) % 2 == 0 or c[3] is False and r.chance(0.2)]
     r.shuffle(cells)
     ident = g.identity(hostile=0.2, empty_ok=False)
     for (sp, sr, sa, enc) in cells:
@@ -387,6 +392,18 @@ def gen_c02(seed, tier):
                 # corrupted in the hand-over file right after it was signed (before it is encrypted and before
                 # anything around it is signed)
                 pa["handover"] = {"where": r.pick(["sigvalue", "digest", "text", "attr"]), "target": "assertion"}
+            g.login(sp, idp, pa, gap=0.5)
+            continue
+        if enc and r.chance(0.12):
+            # a second, plain assertion next to the encrypted one in the same Response
+            plain_signed = r.chance(0.6)
+            pa = dict(p, dialect={"plain_next_to_encrypted": {"signed": plain_signed}})
+            if not pa.get("sigalg"):
+                pa["sigalg"], pa["digalg"] = r.pick(SIGALGS), r.pick(DIGALGS)
+            if faulty and plain_signed:
+                # the plain assertion corrupted right after it was signed (the run after the encrypted one's)
+                pa["handover"] = {"where": r.pick(["sigvalue", "digest", "text", "attr"]), "target": "assertion",
+                                  "skip": 1 if sa else 0}
             g.login(sp, idp, pa, gap=0.5)
             continue
         if not faulty:
@@ -550,6 +567,8 @@ def gen_c05(seed, tier):
                               "foreign-first": [[other_ent], [other_ent, me]], "none": []}[layout]
             if r.chance(0.3):
                 d["scd_irt"] = r.pick(["id-someoneelse0000001", None])
+                if r.chance(0.4):
+                    d["first_sc_nodata"] = True
             if r.chance(0.3):
                 d["recipient"] = r.pick([fed.sp_endpoints(r.pick(others))["acs_post"], fed.sp_entity(sp),
                                          "https://evil.example/acs"])
@@ -714,6 +733,15 @@ def gen_c03(seed, tier):
             if which in ("both", "assertion"):
                 d["assertion_issuer"] = fed.idp_entity(other["name"])
             p["dialect"] = d
+        elif r.chance(0.15) and len(idps) > 1 and not p.get("encrypt"):
+            # an attribute assertion of another member, signed, carried encrypted in the Advice of this IdP's
+            # assertion: trusted only under the keys of the Issuer it names itself
+            other = r.pick([x for x in idps if x is not idp])
+            p.update({"advice": True, "self_contained": True, "sign_assertion": True,
+                      "dialect": {"signed_advice": True, "advice_issuer": other["name"],
+                                  "advice_key": r.pick(["issuer", "carrier"])}})
+            if not p.get("sigalg"):
+                p["sigalg"], p["digalg"] = r.pick(SIGALGS), r.pick(DIGALGS)
         g.login(sp, idp, p)
         if r.chance(0.4):
             # the other signed message types take the same trust decision: a logout request or query of the SP
@@ -772,6 +800,8 @@ def gen_c17(seed, tier):
         elif variant == "pefim":
             p["pefim"] = True
             p["encrypt"] = r.chance(0.5)
+            if r.chance(0.5):
+                p["enc_cert_advice"] = r.pick([10, 11])     # the certificate of the SP behind this proxy SP
         elif variant == "signed-advice":
             # the attributes in a signed assertion of their own, encrypted inside the Advice; the main assertion
             # around it encrypted as well or not; in faulty runs the advice assertion is corrupted right after it
@@ -1015,7 +1045,7 @@ def gen_c10(seed, tier):
             g.tick()
             continue
         fk = r.pick(["plain", "stale", "future", "other-idp", "other-endpoint", "truncate", "b64char", "xml-attr",
-                     "xml-text", "xml-sig", "dup", "wrong-key", "stale-md", "missing-md", "tool"])
+                     "xml-text", "xml-sig", "dup", "wrong-key", "stale-md", "missing-md", "tool", "required-attr"])
         ts = g.t - 1
         sp_now_at_start = int(math.floor(g.now_of(sp["name"], ts)))
         if fk == "plain":
@@ -1050,6 +1080,10 @@ def gen_c10(seed, tier):
             g.ev("req", f=f, mut={"k": "truncate", "frac": r.random()}, sub=g.sub())
         elif fk == "b64char":
             g.ev("req", f=f, mut={"k": "b64char"}, sub=g.sub())
+        elif fk == "required-attr":
+            g.ev("req", f=f, mut={"k": "xml", "where": "required-attr", "target": "response",
+                                  "attr": r.pick(["ID", "ID", "Version", "IssueInstant"]),
+                                  "mode": r.pick(["empty", "empty", "absent"])}, sub=g.sub())
         elif fk in ("xml-attr", "xml-text", "xml-sig"):
             where = {"xml-attr": "attr", "xml-text": "text", "xml-sig": r.pick(["sigvalue", "digest"])}[fk]
             g.ev("req", f=f, mut={"k": "xml", "where": where, "target": "response"}, sub=g.sub())
